@@ -199,8 +199,10 @@ def to_request(c):
     stages = kv["stages"].split(",")
     if "nosuch" in stages:
         fail = str(stages.index("nosuch"))
-    return "pipe n=%s det=%s in=%s out=%s err=%s errto=%s fail=%s term=%s" % (
-        kv["n"], kv["det"], kv["in"], kv["out"], kv.get("err", "I"), kv.get("errto", "0"), fail, kv["term"])
+    # whether the exchange of `capture` failed (EPIPE) is the environment's choice: the model is told what happened
+    iofails = "1" if (kv.get("epipe") == "1" and c.get("res") and c["res"][0] == "err" and "BrokenPipe" in " ".join(c["res"])) else "0"
+    return "pipe n=%s det=%s in=%s out=%s err=%s errto=%s fail=%s term=%s iofails=%s" % (
+        kv["n"], kv["det"], kv["in"], kv["out"], kv.get("err", "I"), kv.get("errto", "0"), fail, kv["term"], iofails)
 
 
 # ------------------------------------------------------------------------------------------ oracles
@@ -282,9 +284,16 @@ def oracle(c, prop, viol):
             viol("the failing start took %s ms to return" % stat["ms"])
         return
     # ---- success path
+    if kv.get("epipe") == "1" and res[0] == "err" and "BrokenPipe" in " ".join(res):
+        # the expected failure of the exchange (C02's subject); what was checked above -- nobody left behind -- is the point
+        if stat["fds_before"] != stat["fds_after"]:
+            viol("descriptors remain open in the parent after the failed call: %s before, %s after" % (stat["fds_before"], stat["fds_after"]))
+        return
     if res[0] != "ok":
         viol("all commands exist but the terminator failed: " + " ".join(res))
         return
+    if kv.get("epipe") == "1":
+        return      # the command happened to drain nothing and still let the write through: nothing more to compare
     if stat["fds_before"] != stat["fds_after"]:
         viol("descriptors remain open in the parent after the handle is gone: %s before, %s after" % (stat["fds_before"], stat["fds_after"]))
     # detached popen: dropping never reaps
@@ -373,7 +382,7 @@ def spec(n, stages, det=None, i="I", o="I", e="I", errto=0, shape="L", term="joi
 
 
 def shapes_for(n, rng):
-    s = ["L", "I"]
+    s = ["L", "I", "J", "K"]     # a|b|c, from a Vec, from an iterator of unknown length, from an unbounded-looking iterator
     for m in range(2, n - 1):
         s += ["P%da" % m, "P%db" % m]
     return s
@@ -439,10 +448,10 @@ def gen_c14(ctx):
                             st[0] = "C"           # the first command waits for end-of-file on its stdin
                         st[k] = "nosuch"
                         # an unbounded writer feeding a sink that reads for ever never ends, whatever the parent does
-                        # (not self-inflicted): keep every command after a `Y` one that passes the broken pipe back
+                        # (not self-inflicted): keep every command after a `Y` or `W` one that passes the broken pipe back
                         seen_y = False
                         for j in range(k):
-                            if st[j] == "Y":
+                            if st[j] in ("Y", "W"):
                                 seen_y = True
                             elif seen_y and st[j] == "S":
                                 st[j] = "C"
@@ -501,6 +510,12 @@ def gen_c12(ctx):
     specs.append(spec(1, ["C"], i="P", o="F", term="popen"))
     specs.append(spec(1, ["Y"], term="communicate", read="0"))
     specs.append(spec(1, ["C"], i="D", term="capture", data=30000, read="all"))
+    # a terminator that FAILS after the start still owns its Popen: input that does not fit a pipe, for a command that exits
+    # without reading it -> EPIPE from the exchange; the command must have been waited for when the error comes back
+    for beh in ["X0", "X3", "G10:0"]:
+        specs.append(spec(1, [beh], i="D", term="capture", data=50000, read="all") + " epipe=1")
+    specs.append(spec(2, ["X3", "C"], i="D", term="capture", data=50000, read="all") + " epipe=1")
+    specs.append(spec(3, ["G10:0", "C", "C"], i="D", term="capture", data=50000, read="all") + " epipe=1")
     # the failed-launch child is reaped too
     specs.append(spec(1, ["nosuch"], term="join"))
     specs.append(spec(1, ["nosuch"], term="popen", det="1"))
